@@ -7,8 +7,6 @@ Import ListNotations.
 Local Open Scope N_scope.
 Ltac Zify.zify_post_hook ::= Z.div_mod_to_equations.
 
-Definition bytes_ok (s : list N) : Prop := Forall (fun b => b < 256) s.
-
 (* ------------------------------------------------------------ byte-level facts (finite sweeps) *)
 
 Lemma cont_test c : c < 256 -> (N.land c 0xC0 =? 0x80) = is_cont c.
